@@ -4,7 +4,7 @@ import LlirModel.Drv.Core2Ops
     `core3.print <ret ty> <hexname> <params> <blocks>`
     ident: `N<hex>` | `I<num>`;  params: `-` or `<ty>~<ident>` joined by `|`;  blocks joined by `/`, a block is `<ident>^<inst>^...^<term>`;
     inst: `<ident or _>:<row>:<args>` with args joined by `!` (or `-`): `T<ty>` | `P<ty>=<operand>` | `V<operand>` | `L<ident>` | `R` | `R<ty>=<operand>` | `H<operand>~<ident>&...` (phi incoming list) | `K<n>,<n>…` (index path) | `A` / `A<n>` (no / an alignment) | `G<ty>=<operand>&…` (typed index list);
-    operand: `%<ident>` | `#<const descriptor>` -/
+    operand: `%<ident>` | `#<const descriptor>` | `@<hexname>` (a global variable or function of the module: M-Whole only) -/
 namespace Llir.Drv
 open Llir Llir.Types Llir.Core2 Llir.Core3
 
@@ -18,6 +18,7 @@ def parseOperandD (s : String) : Option Operand :=
   match s.toList with
   | '%' :: r => (parseIdentD (String.ofList r)).map .loc
   | '#' :: r => (match parseConstD (r.length + 2) r with | some (c, []) => some (.const c) | _ => none)
+  | '@' :: r => some (.glob (argHex (String.ofList r)))
   | _ => none
 
 def parseTyOperand (s : String) : Option (Ty × Operand) :=
@@ -87,17 +88,44 @@ def splitLines (s : Bytes) : List Bytes :=
     instruction has a CONSTANT operand of "the same" type (the real parser re-reads that constant at the resolved type: `xor i1 %a, true` with `%a : i33`
     is an error, `xor i1 %a, 1` becomes `xor i33 %a, 1`; the model keeps the constant as read at the written type), or the condition of a conditional
     branch is a local that is not an `i1` (the printer spells the condition's own type). No printed function is of this kind (`wf` excludes them). -/
-def risky (f : Func) : Bool :=
+def riskyIn (ge : GEnv) (f : Func) : Bool :=
   let e := env f
   f.blocks.any fun b => (instsOf b).any fun i =>
+    -- a global operand written at a type other than the type of the reference, in an instruction whose result type is computed from its operands
+    let badGlob := (i.args.any fun a => match a with
+      | .tyval t (.glob n) => (match lookupG ge n with | some t' => !Types.equal t' t | none => false)
+      | .tyvals ixs => ixs.any fun p => match p.2 with
+          | .glob n => (match lookupG ge n with | some t' => !Types.equal t' p.1 | none => false)
+          | _ => false
+      | _ => false) &&
+      (match rows[i.row]? with | some r => r.hasRes && (match r.res with | .lastTy | .loadTy | .none => false | _ => true) | none => false)
     let badTyval := i.args.any fun a => match a with
       | .tyval t (.loc x) => (match lookup e x with | some t' => !Types.equal t' t | none => false)
+      | .tyval t (.glob n) => (match lookupG ge n with | some t' => !Types.equal t' t | none => false)
       | _ => false
     let constVal := i.args.any fun a => match a with | .val (.const _) => true | _ => false
     let badCond := i.row == 28 && i.args.any fun a => match a with
       | .val (.loc x) => (match lookup e x with | some t' => !Types.equal t' (.int 1) | none => false)
       | _ => false
-    (badTyval && constVal) || badCond
+    -- calls: a return type written as a function type (the signature of a variadic callee) and variadic callees are outside the fragment
+    let badCall := (i.row == 74 || i.row == 75) &&
+      ((i.args.any fun a => match a with | .ty (.func _ _ _) => true | _ => false) ||
+       (match calleeOf i with
+        | some (.loc x) => (match lookup e x with | some (.ptr (.func _ _ true) _) => true | _ => false)
+        | some (.glob n) => (match lookupG ge n with | some (.ptr (.func _ _ true) _) => true | _ => false)
+        | _ => false))
+    (badTyval && constVal) || badCond || badGlob || badCall
+
+def risky (f : Func) : Bool := riskyIn (selfEnv f) f
+
+def hasInfix (p : Bytes) : Bytes → Bool
+  | [] => p.isEmpty
+  | c :: s => (TyParse.stripPrefix p (c :: s)).isSome || hasInfix p s
+
+/-- texts on which the model is not compared: a `call void` with a result name (`%x = call void @f()`: the real parser keeps the name in its table
+    and prints no result; M-Core-3 has no nameless-by-type results) -/
+def textRisky (ls : List Bytes) : Bool :=
+  ls.any (hasInfix [61, 32, 99, 97, 108, 108, 32, 118, 111, 105, 100, 32])
 
 def core3Ops (op : String) (a : List String) : Option String :=
   match op, a with
@@ -107,7 +135,7 @@ def core3Ops (op : String) (a : List String) : Option String :=
       | some f' => outHex (Core3.flatten (printFunc IntLit.hexChoice f'))
       | none => "error"
   | "core3.parse", [x] =>
-      some (match Core3.readFunc (splitLines (argHex x)) with
+      some (if textRisky (splitLines (argHex x)) then "skip" else match Core3.readFunc (splitLines (argHex x)) with
         | none => "error"
         | some f0 =>
           match Core3.translate f0 with
